@@ -381,19 +381,19 @@ CHECKS["C09"] = {
     "level": "exploration",
     "technique": ("(a) real-goroutine rounds released by a barrier running the production worker call sequences, (b) stateful PBT (rapid) with "
                   "production-order flush cycles, creators nested at FS seams inside Flush (harness-owned schedule), reopen and crash images; "
-                  "reference model name->id + recovered-node oracle; goroutine stress of creators next to running flush cycles"),
+                  "reference model name->id + recovered-node oracle; goroutine stress of creators next to running flush cycles; read-only metadata queries (production plan call sequences) as history operations and as goroutines next to creators; all []byte arguments live in reused buffers that are overwritten after each call"),
     "rule": ("TestConcurrentAssign: case = 30 rounds (thorough 60) of k=2..8 goroutines (metadata worker, index worker of shard i on ITS index db, metadata calls of further shards) on one meta db shared "
-             "by 1-3 index dbs, PrepareFlush/Flush steps between rounds; non-trivial = some row with a new name given to >=2 goroutines in one round. TestHistory: write/flushStep/reopen/crash state machine; "
+             "by 1-3 index dbs, PrepareFlush/Flush steps between rounds; non-trivial = some row with a new name given to >=2 goroutines in one round; plus 0-2 query goroutines with 1-4 read-only metadata queries each (Suggest*, tag filter =|in|like|regexp, tag values, series lookups) about old names and names being created; every creator owns a wire (arena + receive buffer reused for all []byte arguments; mode invert|fill|next). TestHistory: write/query/flushStep/reopen/crash state machine; query = one of show-namespaces, show-metrics, show-tag-keys+fields, show-tag-values, tag-filter, tag-values-of-key, series-of-metric, also nested at FS seams inside Flush; wire mode drawn per case; "
              "non-trivial = >=1 recovered image inside a Flush with ids handed out after the last sequence sync; every recovered image is one distinct case of group crash-points. "
-             "TestConcurrentFlushStress: iteration non-trivial = >=1 flush cycle ran next to the workers. distinct = hash of rounds / history(+image tag)"),
+             "TestConcurrentFlushStress: iteration non-trivial = >=1 flush cycle ran next to the workers; one query goroutine (SuggestMetrics/SuggestNamespace/series lookups) runs as long as the workers, the wire mode rotates with the iteration. distinct = hash of rounds / history(+image tag)"),
     "level_text": ("Exploration. Part (a) and the stress test are schedule dependent by nature (Go scheduler); they run thousands of barrier rounds so that a missing re-check is hit with probability ~1 "
                    "(each defect seeded back was hit within the first 1-25 rounds / 20 stress iterations) and report the recorded round. Part (b) is deterministic per seed: sampled crash points (quick: <=8 per flush, "
                    "<=6 recovered per crash action; thorough: <=40) recovered through NewMetricMetaDatabase/NewMetricIndexDatabase on the copied directory."),
     "level_note": ("Process-crash model (image = copy of the directory incl. the mmap'd sequence file). Oracle scopes: metric / tag key / tag value ids unique per database, "
-                   "field ids per metric, series ids per (index db, metric). Namespace ids are only observed through metric ids. Suggest* is left to C20; whether tag names of a FOUND series survived a crash is C07. "
+                   "field ids per metric, series ids per (index db, metric). Namespace ids are only observed through metric ids. Suggest* results are judged only for soundness (scope, prefix, no duplicate) and completeness under the limit; order/limit cuts are C20; every id a lookup reports is folded into the model like a creator's answer. Query goroutines next to creators use known tag key ids and do not read GetSchema or the grouping scan (data races of the read path, not id assignment). Faults inside lindb are converted to failures in TestHistory (SetPanicOnFault). whether tag names of a FOUND series survived a crash is C07. "
                    "rapid reports part (a) failures as 'flaky test' with the original traceback = the recorded round."),
     "assumptions": ["one goroutine per index database (as memdb's index worker)", "flush protocol of dataFlushChecker.doFlush / database.Close",
-                    "names are non-empty, unchanged by sanitising", "lindb leaks LRU janitor goroutines per opened store (not the harness)"],
+                    "names are non-empty, unchanged by sanitising", "callers may overwrite any []byte argument as soon as the call returned (zero-copy sub-slices of a reused row buffer, as the storage write path does)", "metadata queries use limit 1..100", "lindb leaks LRU janitor goroutines per opened store (not the harness)"],
     "tests": [
         {"name": "TestConcurrentAssign", "quick": 150, "thorough": {"checks": 400, "shards": 8}},
         {"name": "TestConcurrentAssignRace", "thorough": {"checks": 150, "shards": 4, "race": True}},
